@@ -91,11 +91,11 @@ def same_floats(a, b):
     return a.shape == b.shape and a.tobytes() == b.tobytes()
 
 
-def comment_line(r):
-    return "#" + r.choice(["", " comment", " 1.0 2.0 x", "#", "\tnote"])
+def comment_line(r, marker="#"):
+    return marker + r.choice(["", " comment", " 1.0 2.0 x", "#", "\tnote"])
 
 
-def write_rows(r, rows, sep):
+def write_rows(r, rows, sep, marker="#"):
     """rows: list of lists of field strings -> (text, [physical line no. of each
     data row, 1-based], n_comments)."""
     lines = []
@@ -103,12 +103,12 @@ def write_rows(r, rows, sep):
     ncom = 0
     for row in rows:
         while r.random() < 0.2:
-            lines.append(comment_line(r))
+            lines.append(comment_line(r, marker))
             ncom += 1
         lines.append(sep.join(row))
         linenos.append(len(lines))
     while r.random() < 0.2:
-        lines.append(comment_line(r))
+        lines.append(comment_line(r, marker))
         ncom += 1
     text = "\n".join(lines) + ("\n" if lines and r.random() < 0.8 else "")
     return text, linenos, ncom
@@ -154,9 +154,19 @@ def make_file(r, fmt):
         expect = ("array+array", v, w)
     elif fmt == "ragged":
         v = [rfloat(r) for _ in range(nrows)]
-        w = [[rfloat(r) for _ in range(r.choice([0, 0, 1, 2, 4]))] for _ in range(nrows)]
-        rows = [[repr(a)] + [repr(x) for x in ws] for a, ws in zip(v, w)]
-        expect = ("ragged", v, w)
+        if r.random() < 0.3:
+            # documented dtype=int (e.g. MIDI numbers), incl. integers that a
+            # detour through float would round
+            w = [[r.choice([r.randrange(0, 128), 2 ** 53 + 1, -7, 9007199254740993])
+                  for _ in range(r.choice([0, 1, 2, 4]))] for _ in range(nrows)]
+            rows = [[repr(a)] + [str(x) for x in ws] for a, ws in zip(v, w)]
+            expect = ("ragged-int", v, w)
+            kw = dict(kw, dtype=int)
+        else:
+            w = [[rfloat(r) for _ in range(r.choice([0, 0, 1, 2, 4]))]
+                 for _ in range(nrows)]
+            rows = [[repr(a)] + [repr(x) for x in ws] for a, ws in zip(v, w)]
+            expect = ("ragged", v, w)
     elif fmt == "key":
         tonic = r.choice(tasks.KEY_TONICS)
         tonic = r.choice([tonic, tonic.capitalize()])
@@ -168,9 +178,15 @@ def make_file(r, fmt):
         w = r.choice([0.0, 1.0, 0.5, r.random()])
         rows = [[repr(t1), repr(t2), repr(w)]]
         expect = ("tempo", [t1, t2], w)
-    text, linenos, ncom = write_rows(r, rows, sep)
+    cm = "#"
+    if fmt not in ("key",) and r.random() < 0.25:
+        # the comment marker is documented as a regular expression
+        cm, pat = r.choice([("%", "%"), ("%", r"[#%]"), ("#", r"#|%"), ("//", "//"),
+                            ("%", r"[#%]")])
+        kw = dict(kw, comment=pat)
+    text, linenos, ncom = write_rows(r, rows, sep, cm)
     return {"fmt": fmt, "text": text, "kw": kw, "expect": expect, "sep": sep,
-            "linenos": linenos, "ncom": ncom, "rows": rows}
+            "linenos": linenos, "ncom": ncom, "rows": rows, "marker": cm}
 
 
 def make_pattern_file(r):
@@ -220,6 +236,11 @@ def matches(expect, got):
         if k == "ragged":
             return same_floats(got[0], expect[1]) and len(got[1]) == len(expect[2]) and \
                 all(same_floats(a, b) for a, b in zip(got[1], expect[2]))
+        if k == "ragged-int":
+            return same_floats(got[0], expect[1]) and len(got[1]) == len(expect[2]) and \
+                all(np.asarray(a).dtype.kind == "i" and
+                    [int(x) for x in np.asarray(a).tolist()] == list(b)
+                    for a, b in zip(got[1], expect[2]))
         if k == "key":
             return got == expect[1]
         if k == "tempo":
@@ -327,6 +348,8 @@ def check_fault(ctx, mods, r, f, scratch, k):
             c = r.randrange(1, len(rows[i]))
         rows[i][c] = r.choice(["abc", "1.0.0", "--1", "1,5" if f["sep"] != "," else "x",
                                "0x1p", "１２"])
+        if f["expect"][0] == "ragged-int" and c >= 1:
+            rows[i][c] = r.choice(["60.7", "abc", "1e3", "6 0" if False else "7.0"])
         if rows[i][c] == "１２":
             rows[i][c] = "1e"  # fullwidth digits parse as floats in Python
     elif fault == "column-removed":
@@ -340,7 +363,7 @@ def check_fault(ctx, mods, r, f, scratch, k):
                 _re.search(r"\s", lab) or (f["sep"].strip() and
                                            f["sep"].strip() in lab)):
             return  # the label's own separators refill the columns: not a fault
-        if f["sep"].join(rows[i]).startswith("#"):
+        if f["sep"].join(rows[i]).startswith(("#", "%", "//")):
             return  # the remaining text is a comment line: not a fault
     elif fault == "column-added":
         rows[i].insert(r.randrange(len(rows[i]) + 1), "3.5")
@@ -354,7 +377,7 @@ def check_fault(ctx, mods, r, f, scratch, k):
     lineno = None
     for j, row in enumerate(rows):
         if r.random() < 0.2:
-            lines.append(comment_line(r))
+            lines.append(comment_line(r, f.get("marker", "#")))
         lines.append(f["sep"].join(row))
         if j == i:
             lineno = len(lines)
